@@ -100,7 +100,7 @@ impl<T: NumberLike> ChunkBodyDecompressor<T> {
     }
   }
 
-  pub fn bits_remaining(&self) -> usize {
+  pub fn bits_remaining(&self) -> QCompressResult<usize> {
     match self {
       Self::Simple { num_decompressor } => num_decompressor.bits_remaining(),
       Self::Delta { num_decompressor, n: _, delta_moments: _, nums_processed: _ } => num_decompressor.bits_remaining(),
